@@ -177,6 +177,7 @@ pub fn run_script(wk: &mut Worker, steps: &[Step], o: &RunOpts) -> CaseResult {
     }
     let _ = port;
     let mut world = World::new(o.nconns);
+    world.t0 = Some(Instant::now());
     world.timed = o.timed;
     world.lenient_scripts = o.lenient_scripts;
     world.script_uncertain = o.script_uncertain;
@@ -187,7 +188,7 @@ pub fn run_script(wk: &mut Worker, steps: &[Step], o: &RunOpts) -> CaseResult {
     }
     let mut pending: Vec<Option<(Cmd, Instant)>> = (0..o.nconns).map(|_| None).collect();
     let mut used_blocking = false;
-    let t0 = Instant::now();
+    let t0 = world.t0.unwrap();
     let mut excluded: BTreeMap<String, u64> = BTreeMap::new();
     let mut trace: Vec<Value> = Vec::new();
     let mut fail: Option<(String, String)> = None;
@@ -358,12 +359,25 @@ pub fn run_script(wk: &mut Worker, steps: &[Step], o: &RunOpts) -> CaseResult {
 
 /// None = equal; Some(Ok(diff)) = different; Some(Err(e)) = the dump itself failed.
 fn compare_dump(obs: &mut Client, world: &mut World, dbs: &[usize]) -> Option<Result<String, String>> {
-    let got = match dump::dump_server(obs, dbs) {
+    let t0 = world.clock_ms();
+    let mut got = match dump::dump_server(obs, dbs) {
         Ok(d) => d,
         Err(e) => return Some(Err(e)),
     };
-    // dump time is "now" for the model: keys whose deadline passed are gone
-    let exp = dump::dump_model(world, dbs);
+    let t1 = world.clock_ms();
+    // the dump window is "now" for the model: keys whose deadline passed before it are gone,
+    // keys whose deadline lies inside it are not compared
+    world.now = Tm { send: t0, recv: t1 };
+    let undecided = world.undecided_keys(dbs);
+    let mut exp = dump::dump_model(world, dbs);
+    for (db, k) in undecided {
+        if let Some(d) = exp.get_mut(&db) {
+            d.remove(&k);
+        }
+        if let Some(d) = got.get_mut(&db) {
+            d.remove(&k);
+        }
+    }
     dump::diff(&exp, &got).map(Ok)
 }
 
